@@ -6,14 +6,14 @@ EXTENDS XLifecycle, Json
 CONSTANT MaxDepth
 
 \* hasTransform, hasInverse, sorts (mode permutation applied after compute),
-\* rotatable, bootable, serializable
-CapSingle    == [hasTransform |-> TRUE,  hasInverse |-> TRUE,  sorts |-> FALSE, rotatable |-> TRUE,  bootable |-> TRUE,  serializable |-> TRUE]
-CapNoTrans   == [hasTransform |-> FALSE, hasInverse |-> TRUE,  sorts |-> FALSE, rotatable |-> TRUE,  bootable |-> FALSE, serializable |-> TRUE]
-CapPlain     == [hasTransform |-> TRUE,  hasInverse |-> TRUE,  sorts |-> FALSE, rotatable |-> FALSE, bootable |-> FALSE, serializable |-> TRUE]
-CapSorted    == [hasTransform |-> TRUE,  hasInverse |-> TRUE,  sorts |-> TRUE,  rotatable |-> FALSE, bootable |-> FALSE, serializable |-> TRUE]
-CapQueryOnly == [hasTransform |-> FALSE, hasInverse |-> FALSE, sorts |-> FALSE, rotatable |-> FALSE, bootable |-> FALSE, serializable |-> TRUE]
-CapCross     == [hasTransform |-> TRUE,  hasInverse |-> TRUE,  sorts |-> FALSE, rotatable |-> TRUE,  bootable |-> FALSE, serializable |-> TRUE]
-CapMulti     == [hasTransform |-> TRUE,  hasInverse |-> FALSE, sorts |-> FALSE, rotatable |-> FALSE, bootable |-> FALSE, serializable |-> FALSE]
+\* rotatable, bootable, serializable, computable (has compute())
+CapSingle    == [hasTransform |-> TRUE,  hasInverse |-> TRUE,  sorts |-> FALSE, rotatable |-> TRUE,  bootable |-> TRUE,  serializable |-> TRUE, computable |-> TRUE]
+CapNoTrans   == [hasTransform |-> FALSE, hasInverse |-> TRUE,  sorts |-> FALSE, rotatable |-> TRUE,  bootable |-> FALSE, serializable |-> TRUE, computable |-> TRUE]
+CapPlain     == [hasTransform |-> TRUE,  hasInverse |-> TRUE,  sorts |-> FALSE, rotatable |-> FALSE, bootable |-> FALSE, serializable |-> TRUE, computable |-> TRUE]
+CapSorted    == [hasTransform |-> TRUE,  hasInverse |-> TRUE,  sorts |-> TRUE,  rotatable |-> FALSE, bootable |-> FALSE, serializable |-> TRUE, computable |-> TRUE]
+CapQueryOnly == [hasTransform |-> FALSE, hasInverse |-> FALSE, sorts |-> FALSE, rotatable |-> FALSE, bootable |-> FALSE, serializable |-> TRUE, computable |-> TRUE]
+CapCross     == [hasTransform |-> TRUE,  hasInverse |-> TRUE,  sorts |-> FALSE, rotatable |-> TRUE,  bootable |-> FALSE, serializable |-> TRUE, computable |-> TRUE]
+CapMulti     == [hasTransform |-> TRUE,  hasInverse |-> FALSE, sorts |-> FALSE, rotatable |-> FALSE, bootable |-> FALSE, serializable |-> FALSE, computable |-> FALSE]
 
 DS3 == {"d1", "d2", "d3"}
 DS2 == {"d1", "d2"}
